@@ -93,6 +93,12 @@ class Ctx:
             self.notes.append("parameters of private helpers read under the name every caller passes: " + ", ".join(self.renamed_params))
         if self.prog.relocated:
             self.notes.append("anchor classes found in another module than expected (indexed under their canonical name): " + ", ".join(f"{v} <- {k}" for k, v in self.prog.relocated.items()))
+        if self.prog.flattened:
+            self.notes.append("methods inherited from private bases / mixins, indexed on the class itself: " + ", ".join(sorted(set(self.prog.flattened))[:40]))
+        if self.prog.partial_closures:
+            self.notes.append("partial(<new private callable>, ...) read as a closure: " + "; ".join(self.prog.partial_closures[:10]))
+        if self.prog.inlined_helpers:
+            self.notes.append("calls of newly extracted private helpers read as the helper's body: " + ", ".join(sorted(set(self.prog.inlined_helpers))[:40]))
         if self.prog.unrolled:
             self.notes.append("loops over literal tables read as unrolled ladders: " + ", ".join(self.prog.unrolled))
         self.depth = 4 if tier == "quick" else 6
